@@ -1,5 +1,6 @@
 import OrbitModel.Proofs.SnapshotCodec
 import OrbitModel.Proofs.SnapshotRT
+import OrbitModel.Proofs.GenEq
 /-!
 # C13 — a snapshot either is refused with an error or loads back to the same log, heads and state
 
@@ -21,6 +22,11 @@ theorem save_errors_exactly_when_a_record_is_too_long (ser : Entry → List Nat)
     save ser serHeader L = none ↔
       65535 < (serHeader (imageOf L)).length ∨ ∃ e ∈ L.entries, 65535 < (ser e).length :=
   save_none_iff ser serHeader L
+
+/-- the two size guards of `SaveSnapshot` in the Go text of this run refuse exactly what `encodeRec` refuses -/
+theorem size_guards_tied_to_go_text (r : List Nat) :
+    Gen.genSnapEntryRefused r.length = (encodeRec r).isNone ∧
+    Gen.genSnapHeaderRefused r.length = (encodeRec r).isNone := gen_snapRefused r
 
 /-- **C13**: for every reachable (good) log whose entries the access controller accepts, saving
 either reports an error, or writes a snapshot from which a fresh store rebuilds a log with exactly
